@@ -271,10 +271,11 @@ def gen_timestamp(rng):
 
 def gen_event_spec(rng, names, explicit_ts):
     n = rng.choice(names)
-    spec = {"name": n, "source": rng.choice(["submitter", "job_batch_1", "j1", "node-7"]),
+    spec = {"name": n, "source": rng.choice(["submitter", "job_batch_1", "j1", "node-7", " spaced source ", "Mixed/Case"]),
             "category": {"unhandled_error": "Error", "log_error": "Error"}.get(n, "HPC" if n.startswith("hpc") else
                                                                               "ResourceUtilization" if n in RESOURCE_NAMES else "misc"),
-            "message": rng.choice(["m", "a, b", "line1\nline2", 'quote " and \\ backslash', "é中", ""]),
+            "message": rng.choice(["m", "a, b", "line1\nline2", 'quote " and \\ backslash', "é中", "", "  padded  ", "trailing newline\n",
+                                   "\ttab", "UPPER lower", "{\"json\": 1}", "x" * 300]),
             "timestamp": gen_timestamp(rng) if explicit_ts else None}
     if n == "process_stats":
         spec["data"] = {"processes": [{"name": f"job{k}", "rss": rng.randint(0, 10 ** 9), "cpu_percent": float(rng.randint(0, 400))}
@@ -284,7 +285,8 @@ def gen_event_spec(rng, names, explicit_ts):
     else:
         spec["data"] = rng.choice([{}, {"batch_size": rng.randint(1, 500), "per_node_batch_size": 50},
                                    {"bytes_consumed": rng.randint(0, 10 ** 12)}, {"nested": {"a": [1, 2, {"b": None}]}, "f": 0.1},
-                                   {"text": "x" * rng.randint(0, 30), "flag": True}])
+                                   {"text": "x" * rng.randint(0, 30), "flag": True}, {"text": "  keep spaces  ", "n": -1, "zero": 0, "empty": ""},
+                                   {"big": 2 ** 62, "neg": -2 ** 40, "float": 1e-9, "list": []}])
         spec["error"] = n in ("unhandled_error",) and rng.random() < 0.7
     return spec
 
